@@ -38,6 +38,8 @@ pub struct OpRecord {
 thread_local! {
     /// fail the k-th backend request submitted in the concurrent phase (faulted concurrent executions)
     pub static FAIL_KTH: std::cell::Cell<Option<usize>> = const { std::cell::Cell::new(None) };
+    /// a second failing request of the concurrent phase (only together with FAIL_KTH)
+    pub static FAIL_KTH2: std::cell::Cell<Option<usize>> = const { std::cell::Cell::new(None) };
 }
 
 pub struct Execution {
@@ -111,6 +113,9 @@ impl SchedScenario {
         sim.borrow_mut().mode = Mode::Scheduled;
         if let Some(k) = FAIL_KTH.with(|c| c.get()) {
             sim.borrow_mut().fault.fail_ids = [log_start + k].into_iter().collect();
+            if let Some(k2) = FAIL_KTH2.with(|c| c.get()) {
+                sim.borrow_mut().fault.fail_ids.insert(log_start + k2);
+            }
         }
         let dev: Rc<Dev> = Rc::new(world.dev.take().unwrap());
         let n = self.tasks.len();
